@@ -1,33 +1,61 @@
-"""Run every extractor once (used by setup.sh); prints a short report."""
-import importlib, os, sys, json
+"""Run every extractor once (used by setup.sh); prints a short report and refreshes the fallback baseline.
+
+Each property's extractors run in a process of their own (some extractors probe the library by re-importing or patching its
+modules; they must not see each other's leftovers), all under the framework lock so that the run cannot race with a check that
+is rewriting Generated/ for a patched worktree."""
+import json
+import os
+import shutil
+import subprocess
+import sys
+
 import core
+
+CHILD = r"""
+import importlib, json, os, sys, traceback
+import core
+mod = importlib.import_module("props." + sys.argv[1])
+out = {"owners": {}, "failed": []}
+for g in getattr(mod, "GENERATORS", []):
+    gname = "%s.%s" % (g.__module__.split(".")[-1], g.__name__)
+    before = set(core.TOUCHED)
+    try:
+        g()
+        out["owners"][gname] = sorted({os.path.basename(p) for p in core.TOUCHED - before})
+    except Exception as e:
+        out["failed"].append([gname, "%s: %s" % (type(e).__name__, str(e)[:300])])
+print("@@" + json.dumps(out))
+"""
+
 failed = 0
 owners = {}
-_lock = core.Lock()
-_lock.__enter__()      # extractors and the baseline copy must not race with a check run on a patched worktree
-for fn in sorted(os.listdir(os.path.join(core.VERIF, "harness", "props"))):
-    if fn.startswith("c") and fn.endswith(".py"):
-        mod = importlib.import_module("props." + fn[:-3])
-        for g in getattr(mod, "GENERATORS", []):
-            gname = "%s.%s" % (g.__module__.split(".")[-1], g.__name__)
-            before = set(core.TOUCHED)
-            try:
-                r = g()
-                print("gen %s.%s ok" % (fn[:-3], g.__module__))
-                owners[gname] = sorted(set(owners.get(gname, [])) | {os.path.basename(p) for p in core.TOUCHED - before})
-            except Exception as e:
-                failed += 1
-                print("gen %s.%s FAILED: %s" % (fn[:-3], g.__module__, e))
-# the Generated files of the tree the framework was set up on are the baseline a check falls back to when an extractor
-# does not recognise changed source (core.restore_baseline); a committed copy exists, refresh it when every extractor succeeded
-if not failed:
-    import shutil
-    os.makedirs(core.BASELINE_DIR, exist_ok=True)
-    for fn in sorted(os.listdir(core.GEN_DIR)):
-        if fn.endswith(".lean"):
-            shutil.copyfile(os.path.join(core.GEN_DIR, fn), os.path.join(core.BASELINE_DIR, fn))
-    with open(os.path.join(core.BASELINE_DIR, "owners.json"), "w") as f:
-        json.dump(owners, f, indent=1, sort_keys=True)
-    print("baseline refreshed (%s)" % core.BASELINE_DIR)
-_lock.__exit__()
+with core.Lock():
+    for fn in sorted(os.listdir(os.path.join(core.VERIF, "harness", "props"))):
+        if not (fn.startswith("c") and fn.endswith(".py")):
+            continue
+        p = subprocess.run([sys.executable, "-c", CHILD, fn[:-3]], capture_output=True, text=True, env=dict(os.environ))
+        line = [l for l in p.stdout.splitlines() if l.startswith("@@")]
+        if not line:
+            failed += 1
+            print("gen %s CRASHED: %s" % (fn[:-3], (p.stderr or p.stdout)[-400:]))
+            continue
+        rep = json.loads(line[-1][2:])
+        for gname, files in rep["owners"].items():
+            owners[gname] = sorted(set(owners.get(gname, [])) | set(files))
+            print("gen %s.%s ok" % (fn[:-3], gname))
+        for gname, msg in rep["failed"]:
+            failed += 1
+            print("gen %s.%s FAILED: %s" % (fn[:-3], gname, msg))
+    # The Generated files of the tree the framework was set up on are the baseline a check falls back to when an extractor does
+    # not recognise changed source (core.restore_baseline); a committed copy exists, refresh it when every extractor succeeded.
+    if not failed:
+        os.makedirs(core.BASELINE_DIR, exist_ok=True)
+        for fn in sorted(os.listdir(core.GEN_DIR)):
+            if fn.endswith(".lean"):
+                shutil.copyfile(os.path.join(core.GEN_DIR, fn), os.path.join(core.BASELINE_DIR, fn))
+        with open(os.path.join(core.BASELINE_DIR, "owners.json"), "w") as f:
+            json.dump(owners, f, indent=1, sort_keys=True)
+        print("baseline refreshed (%s)" % core.BASELINE_DIR)
+    else:
+        print("baseline NOT refreshed: %d extractor(s) failed" % failed)
 sys.exit(0)   # an extraction failure is reported by the property's own check, not by setup
